@@ -614,3 +614,22 @@ func HasNonFinite(v Val) bool {
 	}
 	return false
 }
+
+// NonFiniteToNull returns v with every NaN and infinity replaced by null (what
+// the JSON encoder documents for SetIgnoreInvalidFloat(true)).
+func NonFiniteToNull(v Val) Val {
+	switch v.K {
+	case VF32, VF64:
+		if HasNonFinite(v) {
+			return Val{K: VNull}
+		}
+	case VArr, VObj:
+		out := v
+		out.A = make([]Val, len(v.A))
+		for i, e := range v.A {
+			out.A[i] = NonFiniteToNull(e)
+		}
+		return out
+	}
+	return v
+}
